@@ -8,11 +8,64 @@ import (
 )
 
 func (e *Enc) loopSpecFor(fr *Frame, li *loopInfo) *LoopSpec {
-	c := e.contractOfFn(fr.fn)
-	if c == nil {
+	return e.loopSpecOrd(fr, li.ordinal)
+}
+
+// loopSpecOrd: the specification of the loop with this ordinal of fr.fn — from the function's own contract, or, for an
+// inlined frame, from a "loop N of F" block of the function under verification (the top frame of the inline chain).
+func (e *Enc) loopSpecOrd(fr *Frame, ordinal int) *LoopSpec {
+	if c := e.contractOfFn(fr.fn); c != nil {
+		if sp := c.Loops[ordinal]; sp != nil {
+			return sp
+		}
+	}
+	if fr.parent == nil {
 		return nil
 	}
-	return c.Loops[li.ordinal]
+	top := fr
+	for top.parent != nil {
+		top = top.parent
+	}
+	if top.contract == nil || len(top.contract.InlinedLoops) == 0 {
+		return nil
+	}
+	short := shortFn(fr.fn)
+	for name, m := range top.contract.InlinedLoops {
+		if short == name || strings.HasSuffix(short, "."+name) {
+			if sp := m[ordinal]; sp != nil {
+				if e.dry == 0 {
+					top.contract.callAssertSeen("loop:" + name + "#" + fmt.Sprint(ordinal))
+				}
+				return sp
+			}
+		}
+	}
+	return nil
+}
+
+// loopEnv: the environment in which the clauses of a loop specification are evaluated. For a "loop N of F" block the
+// clauses belong to the function under verification: its contract parameters, its imports, its entry state for old(),
+// and — after the locals of the inlined frame — the locals of the enclosing frames up to the top one.
+func (e *Enc) loopEnv(fr *Frame, st *State, li *loopInfo, spec *LoopSpec) *Env {
+	env := e.envFor(fr, st)
+	env.loop = li
+	if spec == nil || spec.Owner == nil || fr.parent == nil {
+		return env
+	}
+	top := fr
+	for top.parent != nil {
+		top = top.parent
+	}
+	env.vars = map[string]*Val{}
+	for k, v := range e.bindParams(spec.Owner, top.args, top.fn.Signature) {
+		env.vars[k] = v
+	}
+	env.pkgPath, env.imports = spec.Owner.PkgPath, spec.Owner.Imports
+	if top.entry != nil {
+		env.old = top.entry
+	}
+	env.outer = true
+	return env
 }
 
 func (e *Enc) contractOfFn(fn *ssa.Function) *Contract {
@@ -118,8 +171,7 @@ func (e *Enc) enterLoop(fr *Frame, li *loopInfo, st *State) *State {
 	}
 	// 1. establish
 	for i, inv := range invs {
-		env := e.envFor(fr, st)
-		env.loop = li
+		env := e.loopEnv(fr, st, li, spec)
 		g, err := env.evalBool(inv.E)
 		if err != nil {
 			e.unsupportedf("%s invariant %d: %v", loopName, i+1, err)
@@ -189,8 +241,7 @@ func (e *Enc) enterLoop(fr *Frame, li *loopInfo, st *State) *State {
 	if loopFrame {
 		// targets are evaluated at the header of the arbitrary iteration (loop-carried variables have their header values)
 		for i, m := range spec.Modifies {
-			env := e.envFor(fr, h)
-			env.loop = li
+			env := e.loopEnv(fr, h, li, spec)
 			if err := env.havocTarget(h, m); err != nil {
 				e.unsupportedf("%s modifies %s: %v", loopName, spec.ModSrc[i], err)
 			}
@@ -199,8 +250,7 @@ func (e *Enc) enterLoop(fr *Frame, li *loopInfo, st *State) *State {
 	li.headerState = h.clone()
 	// 4. assume invariants
 	for i, inv := range invs {
-		env := e.envFor(fr, h)
-		env.loop = li
+		env := e.loopEnv(fr, h, li, spec)
 		g, err := env.evalBool(inv.E)
 		if err != nil {
 			e.unsupportedf("%s invariant %d: %v", loopName, i+1, err)
@@ -240,8 +290,7 @@ func (e *Enc) backEdgeObligations(fr *Frame, b *ssa.BasicBlock, st *State, si in
 		if fr.parent != nil {
 			lname = shortFn(fr.fn) + "/" + lname
 		}
-		fenv := e.envFor(fr, li.headerState)
-		fenv.loop = li
+		fenv := e.loopEnv(fr, li.headerState, li, spec)
 		fp, err := fenv.footprintOfTargets(spec.Modifies, nil)
 		if err != nil {
 			e.unsupportedf("%s modifies: %v", lname, err)
@@ -303,8 +352,7 @@ func (e *Enc) backEdgeObligations(fr *Frame, b *ssa.BasicBlock, st *State, si in
 	st2 := st.clone()
 	st2.reach = cond
 	for i, inv := range spec.Invariants {
-		env := e.envFor(fr, st2)
-		env.loop = li
+		env := e.loopEnv(fr, st2, li, spec)
 		g, err := env.evalBool(inv.E)
 		if err != nil {
 			e.unsupportedf("%s invariant %d: %v", loopName, i+1, err)
